@@ -91,6 +91,26 @@ def run(ctx):
             text += 'action n appliesTo { principal: [N], resource: [N], context: { c: %s } };\n}\n' % ref('T', 'NS')
             n += 1
             cases.append('(case x%d schemarun text %s %s %s %s)' % (n, S(text), sx.dump(pols), sx.dump(store), sx.dump(req)))
+    # deep diamond-shaped hierarchies: a node reachable along 2^depth paths must still be searched once (entity types, action groups)
+    for depth in ((12, 40, 80) if quick else (12, 24, 40, 80, 200)):
+        text = 'entity A%d;\n' % depth
+        for i in range(depth - 1, -1, -1):
+            text += 'entity L%d in [A%d]; entity R%d in [A%d]; entity A%d in [L%d, R%d];\n' % (i, i + 1, i, i + 1, i, i, i)
+        text += 'action a%d;\n' % depth
+        for i in range(depth - 1, -1, -1):
+            text += 'action l%d in [a%d]; action r%d in [a%d]; action a%d in [l%d, r%d] appliesTo { principal: [A0], resource: [A0, A%d] };\n' % (i, i + 1, i, i + 1, i, i, i, depth)
+        dp = ['policies'] + [S(t) for t in (
+            'permit(principal, action in Action::"zz", resource);', 'permit(principal, action in Action::"a%d", resource);' % depth,
+            'permit(principal, action in [Action::"a%d", Action::"l0"], resource);' % depth, 'permit(principal in Zed::"z", action, resource);',
+            'permit(principal, action == Action::"a0", resource) when { principal in A%d::"x" && action in Action::"a%d" && principal in Nope::"y" };' % (depth, depth),
+            'permit(principal, action, resource) when { principal in resource || action in [Action::"a%d", Action::"nope"] };' % depth,
+            'permit(principal is A0 in A%d::"x", action, resource is A%d);' % (depth, depth))]
+        dstore = ['store', ['ent', gen.vent('A0', 'x'), ['parents', gen.vent('L0', 'x'), gen.vent('R0', 'x')], ['attrs'], ['tags']],
+                  ['ent', gen.vent('Action', 'a0'), ['parents'] + [gen.vent('Action', '%s%d' % (k, i)) for i in range(depth) for k in 'lr'] +
+                   [gen.vent('Action', 'a%d' % i) for i in range(1, depth + 1)], ['attrs'], ['tags']]]
+        n += 1
+        cases.append('(case d%d schemarun text %s %s %s %s)' % (n, S(text), sx.dump(dp), sx.dump(dstore),
+                                                              sx.dump(['req', gen.vent('A0', 'x'), gen.vent('Action', 'a0'), gen.vent('A0', 'y'), ['rec']])))
     for i in range(600 if quick else 30000):
         n += 1
         cases.append('(case r%d schemarun text %s %s %s %s)' % (n, S(schematext.schema_text(r)), sx.dump(pols), sx.dump(store), sx.dump(req)))
@@ -101,7 +121,7 @@ def run(ctx):
         cases.append('(case w%d schemarun text %s %s %s %s)' % (n, S(sch.text()), sx.dump(ps), sx.dump(sch.store()), sx.dump(sch.request())))
     ctx.rule = ('all 512 entity-type parent graphs on 3 names (self loops, cycles, diamonds) x sampled action-group graphs, all 512 common-type '
                 'reference graphs on 3 names (direct, through Set<>, through nested records), the same graphs with the types spread over two namespaces and referenced by qualified / unqualified names, random full-featured schemas (undefined references, '
-                'shadowing, namespaces, enums), well-formed schemas with typed policies; each resolved and used to validate 6 text policies with '
+                'shadowing, namespaces, enums), well-formed schemas with typed policies, diamond-shaped entity-type and action-group hierarchies 12-80 levels deep (2^depth paths); each resolved and used to validate 6 text policies with '
                 '`in` / `is..in` / attribute chains + 18 policies with set / record / extension literals, a store and a request, in both modes. '
                 'non-trivial = the schema resolved and the validator ran')
     ctx.exhaustive = True
